@@ -171,7 +171,7 @@ inductive Event
   | sleep (w : String) (q : Nat)
   | exit (w : String)
   | raise (w : String) (what : String)
-deriving Repr
+deriving Repr, DecidableEq
 
 /-! ## class-level views (`shared_*` properties) -/
 
@@ -349,31 +349,41 @@ def unsetModeOf (nd : Node) (vm : String) : String :=
 def isReversible (nd : Node) : Bool :=
   nd.objs.any (fun vm => (unsetModeOf nd vm).toList.head? == some 'f')
 
+/-- accumulator of the loop of `sync_states`: (should_clean, action of the last object, states to
+unset, states to get, loop left by `break`) -/
+abbrev SyncAcc := Bool × String × List (String × String) × List (String × String) × Bool
+
+/-- `vm_name in params.get("vms", all_objects("vms"))` of `sync_states` -/
+def vmSelected (runVms : Option (List String)) (vm : String) : Bool :=
+  match runVms with | none => true | some l => l.contains vm
+
+/-- one round of the loop of `sync_states` for an object with a set state -/
+def syncStep (nd : Node) (runVms : Option (List String)) (acc : SyncAcc) (vs : String × String) : SyncAcc :=
+  if acc.2.2.2.2 then acc else
+  let c := (unsetModeOf nd vs.1).toList.head?
+  if c != some 'f' && c != some 'r' then acc else
+  if !(vmSelected runVms vs.1) then acc else
+  if c == some 'f' then (true, "unset", acc.2.2.1 ++ [vs], acc.2.2.2.1, false)
+  else if nd.poolFilter == "reuse" || nd.poolFilter == "block" then (false, acc.2.1, acc.2.2.1, acc.2.2.2.1, true)
+  else (true, "get", acc.2.2.1, acc.2.2.2.1 ++ [vs], false)
+
+def syncAcc (nd : Node) (runVms : Option (List String)) : SyncAcc :=
+  nd.sets.foldl (syncStep nd runVms) (false, "", [], [], false)
+
 /-- `sync_states`: one request at the end, decided by the objects with a set state in object order -/
 def syncStates (g : Graph) (s : State) (n w : Nat) (runVms : Option (List String)) : State × List Event :=
   let nd := g.node n
-  -- fold over the objects with a set state; accumulator: (should_clean, action of the last object, requests, stop)
-  let step := fun (acc : Bool × String × List (String × String) × List (String × String) × Bool) (vs : String × String) =>
-    let (clean, act, unsets, gets, stop) := acc
-    if stop then acc else
-    let mode := unsetModeOf nd vs.1
-    let c := mode.toList.head?
-    if c != some 'f' && c != some 'r' then acc else
-    if !(match runVms with | none => true | some l => l.contains vs.1) then acc else
-    if c == some 'f' then (true, "unset", unsets ++ [vs], gets, false)
-    else if nd.poolFilter == "reuse" || nd.poolFilter == "block" then (false, act, unsets, gets, true)
-    else (true, "get", unsets, gets ++ [vs], false)
-  let (clean, act, unsets, gets, _) := nd.sets.foldl step (false, "", [], [], false)
-  if !clean then (s, []) else
+  let acc := syncAcc nd runVms
+  if !acc.1 then (s, []) else
   let wid := (g.worker w).id
-  if act == "unset" then
-    let own := (storeGet s.store wid).filter (fun x => !unsets.contains x)
-    ({ s with store := storeSet s.store wid own }, [Event.door wid "unset" unsets ["own"] true])
+  if acc.2.1 == "unset" then
+    let own := (storeGet s.store wid).filter (fun x => !acc.2.2.1.contains x)
+    ({ s with store := storeSet s.store wid own }, [Event.door wid "unset" acc.2.2.1 ["own"] true])
   else
     let shared := storeGet s.store "shared"
-    let add := gets.filter (fun x => shared.contains x && !(storeGet s.store wid).contains x)
+    let add := acc.2.2.2.1.filter (fun x => shared.contains x && !(storeGet s.store wid).contains x)
     ({ s with store := storeSet s.store wid (storeGet s.store wid ++ add) },
-     [Event.door wid "get" gets nd.scope true])
+     [Event.door wid "get" acc.2.2.2.1 nd.scope true])
 
 /-! ## decisions -/
 
@@ -399,6 +409,28 @@ def shouldRerun (g : Graph) (s : State) (n w : Nat) : Except String Bool :=
   let left : Int := if maxTries == 1 then 0 else maxTries - statuses.length
   .ok (decide (left > 0))
 
+/-- `self.should_rerun = lambda _: False` on this copy -/
+def disableRerun (s : State) (n : Nat) : State := s.setNd n (fun d => { d with rerunDisabled := true })
+
+/-- the stateless branch of `default_run_decision` -/
+def runDecisionStateless (g : Graph) (s : State) (n w : Nat) : Except String (Bool × State × List Event) :=
+  if (sharedResults g s n).isEmpty then .ok (true, s, [])
+  else (shouldRerun g s n w).map (fun b => (b, s, []))
+
+/-- the stateful branch of `default_run_decision` once the scan has been done (`sc` = its verdict and events) -/
+def runDecisionStatefulCore (g : Graph) (s : State) (n w : Nat) (scan : Bool) (sc : Bool × List Event) :
+    Except String (Bool × State × List Event) :=
+  if scan && sc.1 then
+    .ok (true, if (sharedFilteredResults g s n (s.nd n).started).isEmpty && !sc.1 then disableRerun s n else s, sc.2)
+  else
+    (shouldRerun g (if (sharedFilteredResults g s n (s.nd n).started).isEmpty && !sc.1 then disableRerun s n else s) n w).map
+      (fun b => (b, if (sharedFilteredResults g s n (s.nd n).started).isEmpty && !sc.1 then disableRerun s n else s, sc.2))
+
+/-- the stateful branch of `default_run_decision`: one-time scan, switching reruns off, rerun rule -/
+def runDecisionStateful (g : Graph) (s : State) (n w : Nat) : Except String (Bool × State × List Event) :=
+  runDecisionStatefulCore g s n w (!isFinished g s n w 1)
+    (if !isFinished g s n w 1 then scanStates g s n w else (false, []))
+
 /-- `default_run_decision` : returns (decision, state', events); the state changes through the
 `should_rerun = lambda _: False` replacement -/
 def runDecision (g : Graph) (s : State) (n w : Nat) : Except String (Bool × State × List Event) :=
@@ -408,20 +440,7 @@ def runDecision (g : Graph) (s : State) (n w : Nat) : Except String (Bool × Sta
   if nd.flat then .ok (false, s, []) else
   if nd.cloneSource then .ok (false, s, []) else
   if !g.idIn w n then .error "RuntimeError" else
-  if nd.sets.isEmpty then
-    if (sharedResults g s n).isEmpty then .ok (true, s, [])
-    else match shouldRerun g s n w with
-      | .ok b => .ok (b, s, [])
-      | .error e => .error e
-  else
-    let scan := !isFinished g s n w 1
-    let (fromScan, evs) := if scan then scanStates g s n w else (false, [])
-    let s' := if (sharedFilteredResults g s n (s.nd n).started).isEmpty && !fromScan
-              then s.setNd n (fun d => { d with rerunDisabled := true }) else s
-    if scan && fromScan then .ok (true, s', evs)
-    else match shouldRerun g s' n w with
-      | .ok b => .ok (b, s', evs)
-      | .error e => .error e
+  if nd.sets.isEmpty then runDecisionStateless g s n w else runDecisionStateful g s n w
 
 /-- `default_clean_decision` -/
 def cleanDecision (g : Graph) (s : State) (n w : Nat) : Except String Bool :=
